@@ -20,20 +20,68 @@ func jsonEmit(c *Ctx) *ssa.Function {
 		c.anchorFail("lib/json.encode not found")
 		return nil
 	}
-	// the closure with a type switch on starlark.Float
-	for _, an := range enc.AnonFuncs {
+	// the emitter: the function of lib/json (closure of encode, or a method of an
+	// encoder type) whose type switch has an arm for starlark.Float
+	var cands []*ssa.Function
+	for _, fn := range c.P.Funcs {
+		if fnPkgPath(fn) != modPath+"/lib/json" {
+			continue
+		}
 		found := false
-		eachInstr(an, func(in ssa.Instruction) {
-			if ta, ok := in.(*ssa.TypeAssert); ok && qualType(ta.AssertedType) == "starlark.Float" {
+		eachInstr(fn, func(in ssa.Instruction) {
+			if ta, ok := in.(*ssa.TypeAssert); ok && ta.CommaOk && qualType(ta.AssertedType) == "starlark.Float" {
 				found = true
 			}
 		})
 		if found {
-			return an
+			cands = append(cands, fn)
 		}
 	}
-	c.anchorFail("emitter closure of lib/json.encode not found")
+	// it must be reachable from encode
+	for _, fn := range cands {
+		if outermost(fn) == enc || reachesStatic(enc, fn, 20) {
+			return fn
+		}
+	}
+	c.anchorFail("emitter of lib/json.encode not found")
 	return nil
+}
+
+// armFuncs returns the emitter restricted to an arm plus the package-local
+// helpers called from that arm (emitMapping, emitAttrs, ...).
+func armHelpers(em *ssa.Function, root *ssa.BasicBlock) []*ssa.Function {
+	var out []*ssa.Function
+	seen := map[*ssa.Function]bool{em: true}
+	for _, b := range em.Blocks {
+		if !inArm(root, b) {
+			continue
+		}
+		for _, in := range b.Instrs {
+			if ci, ok := in.(ssa.CallInstruction); ok {
+				if cal := ci.Common().StaticCallee(); cal != nil && cal.Blocks != nil && fnPkgPath(cal) == fnPkgPath(em) && !seen[cal] {
+					seen[cal] = true
+					out = append(out, cal)
+				}
+			}
+		}
+	}
+	return out
+}
+
+// isRecursiveEmit: a call back into the emitter (through the captured closure
+// variable, or a direct call of the emitter method).
+func isRecursiveEmit(em *ssa.Function, call *ssa.Call) bool {
+	if call.Call.StaticCallee() == em {
+		return true
+	}
+	if call.Call.StaticCallee() == nil && !call.Call.IsInvoke() {
+		if ld, ok := call.Call.Value.(*ssa.UnOp); ok && ld.Op == token.MUL {
+			if fv, ok := ld.X.(*ssa.FreeVar); ok && fv.Name() == "emit" {
+				return true
+			}
+		}
+	}
+	return false
 }
 
 // armRoot returns the block entered when x.(T) succeeds in the emitter's type switch.
@@ -138,23 +186,24 @@ func ruleJ3(c *Ctx) {
 		}
 		var sorts []ssa.Instruction
 		var recs []ssa.Instruction
-		eachInstr(em, func(in ssa.Instruction) {
-			call, ok := in.(*ssa.Call)
-			if !ok || !inArm(root, call.Block()) {
-				return
-			}
-			if isSortCall(call.Call.StaticCallee()) {
-				sorts = append(sorts, in)
-			}
-			// recursive emit: dynamic call through the captured variable
-			if call.Call.StaticCallee() == nil && !call.Call.IsInvoke() {
-				if ld, ok := call.Call.Value.(*ssa.UnOp); ok && ld.Op == token.MUL {
-					if fv, ok := ld.X.(*ssa.FreeVar); ok && fv.Name() == "emit" {
-						recs = append(recs, in)
-					}
+		scan := func(f *ssa.Function, restrict bool) {
+			eachInstr(f, func(in ssa.Instruction) {
+				call, ok := in.(*ssa.Call)
+				if !ok || (restrict && !inArm(root, call.Block())) {
+					return
 				}
-			}
-		})
+				if isSortCall(call.Call.StaticCallee()) {
+					sorts = append(sorts, in)
+				}
+				if isRecursiveEmit(em, call) {
+					recs = append(recs, in)
+				}
+			})
+		}
+		scan(em, true)
+		for _, h := range armHelpers(em, root) {
+			scan(h, false)
+		}
 		switch {
 		case len(recs) == 0:
 			c.viol(key, c.P.Pos(root.Instrs[0].Pos()), "no recursive emission of member values found in this arm")
@@ -165,7 +214,7 @@ func ruleJ3(c *Ctx) {
 			for _, r := range recs {
 				dom := false
 				for _, s := range sorts {
-					if instrDominates(s, r) {
+					if s.Parent() == r.Parent() && instrDominates(s, r) {
 						dom = true
 					}
 				}
